@@ -177,7 +177,8 @@ theorem keyt_unwrap_wrap (L : Laws C) {d k : Nat} (hd0 : 0 < d) (hdq : d < C.q)
       = (.ok, key) := by
   obtain ⟨R', y', hl, hxy⟩ := keyt_lift_shared L hR hT
   have htl : (natLE C.no xR ++ C.kwpE (theta C xT) (key ++ hdr)).length = C.no + (key.length + 16) := by
-    simp only [List.length_append, natLE_length, L.kwp_len, hh]
+    have h32 : 32 ≤ (key ++ hdr).length := by rw [List.length_append]; omega
+    simp only [List.length_append, natLE_length, L.kwp_len _ _ h32, hh]
   have hq := L.q_hi
   have hp := L.p_hi
   have hxR := (L.xy_lt _ _ _ hR).1
